@@ -258,6 +258,20 @@ class StmtMixin:
         n = 0
         while True:
             t = self.ops.truth(self.eval(frame, s.test))
+            if self.ctx.settings.float_mode == "opaque" and is_zbool(t) and str(t).startswith("nondet"):
+                # a loop steered by abstracted floats: its body may run any number of times.  Everything it assigns is
+                # havocked (only abstracted floats may be assigned; anything else is outside the subset) and the loop
+                # is left - partial correctness, termination is not proved (A5)
+                from .values import OPQ as _O
+                names, mutated = self.assigned_names(s.body)
+                if mutated:
+                    raise Unsupported("loop on abstracted floats mutates a container at %s" % w)
+                for nm in names:
+                    cur = frame.locals.get(nm, _O)
+                    if not (cur is _O or isinstance(cur, float)):
+                        raise Unsupported("loop on abstracted floats assigns the non-float %s at %s" % (nm, w))
+                    frame.locals[nm] = _O
+                return
             c = t if isinstance(t, bool) else tobool_const(t)
             if n >= bound:
                 # unwinding assertion: the loop condition is false after `bound` iterations
